@@ -630,11 +630,59 @@ func CallOf(v ssa.Value) *ssa.Call {
 func Returns(fn *ssa.Function) []*ssa.Return {
 	var out []*ssa.Return
 	Instrs(fn, func(i ssa.Instruction) {
-		if r, ok := i.(*ssa.Return); ok {
+		if r, ok := i.(*ssa.Return); ok && i.Block() != fn.Recover {
 			out = append(out, r)
 		}
 	})
 	return out
+}
+
+// PassThrough resolves v = f(...)#k to the argument it always returns: if
+// every return of the (statically known, same-program) callee yields its
+// parameter j in result position k, the j-th actual argument is returned.
+// Otherwise v is returned unchanged.
+func PassThrough(v ssa.Value) ssa.Value {
+	for i := 0; i < 5; i++ {
+		u := Unwrap(v)
+		idx := 0
+		var call *ssa.Call
+		switch x := u.(type) {
+		case *ssa.Extract:
+			idx = x.Index
+			call, _ = x.Tuple.(*ssa.Call)
+		case *ssa.Call:
+			call = x
+		}
+		if call == nil {
+			return u
+		}
+		callee := call.Common().StaticCallee()
+		if callee == nil || len(callee.Blocks) == 0 {
+			return u
+		}
+		pj := -1
+		for _, r := range Returns(callee) {
+			if idx >= len(r.Results) {
+				return u
+			}
+			rv := Unwrap(r.Results[idx])
+			found := -1
+			for j, p := range callee.Params {
+				if rv == ssa.Value(p) {
+					found = j
+				}
+			}
+			if found < 0 || (pj >= 0 && pj != found) {
+				return u
+			}
+			pj = found
+		}
+		if pj < 0 {
+			return u
+		}
+		v = call.Common().Args[pj]
+	}
+	return v
 }
 
 // ErrIndex returns the index of the last result if it is of type error, else -1.
